@@ -258,6 +258,8 @@ def run(ctx):
         if m.kind == "contract":
             for kind in ("instantiate", "migrate"):
                 check_struct(ctx, m, g, kind)
+    from .. import witness
+    witness.run_for(ctx, "C01")
     C.corpus_adequacy(ctx, enforce=True)
     ctx.floor("C01.a-variants", 100)
     ctx.floor("C01.c-wire-name", 100)
